@@ -207,3 +207,22 @@ func TestTypingAndAudit(t *testing.T) {
 		t.Fatal("3vl")
 	}
 }
+
+func TestTrailingCommaIsInvalid(t *testing.T) {
+	for _, q := range []string{
+		"INSERT INTO t (a, b, ) VALUES ($1, $2, ) RETURNING a",
+		"INSERT INTO t (a, b) VALUES ($1, $2, )",
+		"SELECT a, b, FROM t",
+		"UPDATE t SET (a, b, ) = ROW($1, $2) WHERE a = $3",
+		"SELECT a FROM t WHERE a IN (1,,2)",
+		"INSERT INTO t (, a) VALUES ($1)",
+	} {
+		_, err := parseStatement(q)
+		if err == nil || err.Class != "invalid" {
+			t.Errorf("%s: got %v, want class invalid", q, err)
+		}
+	}
+	if _, err := parseStatement("SELECT a, b FROM t WHERE a IN (1, 2)"); err != nil {
+		t.Error(err)
+	}
+}
